@@ -15,7 +15,10 @@ pub fn format_parse_error(input: &str, err: nom::Err<NomError<&str>>) -> String 
     match err {
         nom::Err::Error(e) | nom::Err::Failure(e) => {
             let error_pos = e.input;
-            let offset = input.len() - error_pos.len();
+            let offset = error_offset(input, error_pos);
+            // The annotated span covers the character at `offset`; its end must be a
+            // character boundary as well (the renderer slices the source there).
+            let span_end = input[offset..].chars().next().map_or(offset, |c| offset + c.len_utf8());
             
             // Calculate line and column numbers
             let mut line_no = 1;
@@ -94,7 +97,7 @@ pub fn format_parse_error(input: &str, err: nom::Err<NomError<&str>>) -> String 
                             .fold(false)
                             .annotation(
                                 AnnotationKind::Primary
-                                    .span(offset..offset.saturating_add(1).min(input.len()))
+                                    .span(offset..span_end)
                                     .label(&final_label)
                             )
                     )
@@ -129,6 +132,28 @@ pub fn format_parse_error(input: &str, err: nom::Err<NomError<&str>>) -> String 
             format!("\n{}", renderer.render(report))
         }
     }
+}
+
+/// Byte offset of the error slice inside `input`.
+///
+/// Parser errors normally carry the unconsumed suffix of the request, but
+/// validators may report a sub-slice that ends earlier (for example the
+/// offending part of a prefix). Locate the slice by address when it lies
+/// inside `input` and fall back to the length difference otherwise. The
+/// result is always a character boundary of `input`, so it is safe to slice
+/// the request at it.
+fn error_offset(input: &str, error_pos: &str) -> usize {
+    let start = input.as_ptr() as usize;
+    let position = error_pos.as_ptr() as usize;
+    let mut offset = if position >= start && position <= start + input.len() {
+        position - start
+    } else {
+        input.len().saturating_sub(error_pos.len())
+    };
+    while !input.is_char_boundary(offset) {
+        offset -= 1;
+    }
+    offset
 }
 
 /// Detect specific SPARQL errors and provide helpful messages
